@@ -29,13 +29,15 @@ fn seed(x: u8) -> StrSeed {
 }
 
 /// layout: [flags][cycles] then ops: [kind][arg][arg] ... 0xFF = next thread, 0xFE = schedule follows
-/// flags: bit0 cancelable, bit1 fine-grained collector yields, bit2 extended operation table
+/// flags: bit0 cancelable, bit1 fine-grained collector yields, bit2 extended operation table,
+/// bit3 queues are registered with the first command (vthreads may be born during a cycle)
 pub fn program_from_bytes(data: &[u8], allow_fill: bool) -> Program {
     let mut r = R { b: data, p: 0 };
     let flags = r.u8();
     let cancelable = flags & 1 == 1;
     let fine = flags & 2 == 2;
     let extended = flags & 4 == 4;
+    let lazy_reg = flags & 8 == 8;
     let cycles = r.u8() % 7;
     let mut threads: Vec<Vec<Op>> = vec![vec![]];
     let mut schedule = vec![];
@@ -96,7 +98,7 @@ pub fn program_from_bytes(data: &[u8], allow_fill: bool) -> Program {
         };
         cur.push(op);
     }
-    Program { cancelable, threads, cycles, schedule, fine, pool: 0, lazy_reg: false }
+    Program { cancelable, threads, cycles, schedule, fine, pool: 0, lazy_reg }
 }
 
 pub const KNOWN: &[&str] = &[
